@@ -406,7 +406,7 @@ def r6_error_path_cannot_panic(ctx):
             recv = f.slice(t["args"][0])
             if recv.has_call(r"^error::HttpError::headers_mut$") or recv.reads_field("headers"):
                 writers.append((f, bb, t))
-    ctx.check(R, "header-writers", len(writers) >= 2, "calls writing into an HttpError's header map: %s" % sorted(set(f.id for f, _, _ in writers)), nontrivial=False)
+    ctx.check(R, "header-writers", len(writers) >= 1, "calls writing into an HttpError's header map: %s" % sorted(set(f.id for f, _, _ in writers)), nontrivial=False)
     for f, bb, t in writers:
         app = re.search(r"(try_)?append$", t["callee"]) is not None
         ctx.check(R, "header-writer-appends:%s" % f.id, app, "%s uses HeaderMap::%s (insert would drop an earlier value of a repeated header such as WWW-Authenticate / Set-Cookie / Allow)" % (f.id, t["callee"].split("::")[-1]), (f, bb))
